@@ -142,6 +142,10 @@ func (s *JSchema) AddType(name string, sc schema.Schema) (err error) {
 			return errs.ErrLoadError.F(err)
 		}
 
+		if typ.Inner.RootNode() == nil {
+			return errs.ErrEmptyType.F(name)
+		}
+
 		s.Inner.AddNamedType(name, typ.Inner, s.File, 0)
 		s.UserTypeCollection[name] = typ
 	case *regex.RSchema:
